@@ -2457,14 +2457,17 @@ fn gen_c14(rng: &mut Rng, ops: &mut Vec<String>, stats: &mut Stats) {
     let aid = id_of_seed(a);
     let n = rng.range(6, 40);
     let mut members: Vec<u64> = Vec::new();
+    let mut member_seq: std::collections::HashMap<u64, u64> = std::collections::HashMap::new();
     for _ in 0..n {
         let d = 256 - [0u64, 0, 0, 0, 1, 1, 1, 2, 2, 3, 4, 5][rng.below(12) as usize];
         if let Some(s) = mine(rng.below(1 << 30), |id| dist(&aid, id) == d) {
             // record sizes from the minimum up to the 300-byte limit
             let pad = *rng.pick(&[0usize, 40, 100, 130, 150, 156, 160, 200, 200, 200]);
             let sh = contact_shape(mode, rng);
-            let spec = format!("k{}:{}:{}:{}", s, rng.range(1, 70000), sh, pad);
+            let mseq = rng.range(1, 70000);
+            let spec = format!("k{}:{}:{}:{}", s, mseq, sh, pad);
             members.push(s);
+            member_seq.insert(s, mseq);
             if rng.chance(1, 2) {
                 ops.push(format!("sadd A {}", spec));
             } else {
@@ -2492,7 +2495,12 @@ fn gen_c14(rng: &mut Rng, ops: &mut Vec<String>, stats: &mut Stats) {
             }
         } else { addr };
         if rng.chance(1, 5) {
-            let seq = rng.range(0, 5);
+            // (a stored node half of the time announces a record newer than the stored one: the
+            // service then asks it for that record)
+            let seq = match member_seq.get(&requester) {
+                Some(ms) if rng.chance(1, 2) => ms + rng.range(1, 3),
+                _ => rng.range(0, 5),
+            };
             ops.push(format!("sreq A k{} {} {} ping {}", requester, addr, rid_tok(rng), seq));
             if rng.chance(1, 3) {
                 // the same peer pings again (announcing a still newer record) before the service's own
